@@ -24,7 +24,7 @@ ASSUMPTIONS = [
     "leaf declarations are truthful by construction of the generator (min <= actual <= max)",
     "row counts come from executing the real engines (SQLite for SQL); content is cross-checked with vmon/model.py",
 ]
-MIN_OBS = {"nodes_checked": 3000, "nodes_zero_columns": 100, "nodes_max_rows_zero": 50, "nodes_join_identity": 20, "nodes_unbounded": 50}
+MIN_OBS = {"processed_compared": 300, "nodes_checked": 3000, "nodes_zero_columns": 100, "nodes_max_rows_zero": 50, "nodes_join_identity": 20, "nodes_unbounded": 50}
 CASE_TIMEOUT = 60
 
 
@@ -49,6 +49,18 @@ def gen_case(rng, tier):
     if rng.random() < 0.1:
         # equal-named leaves with different content and bounds (relations that compare equal)
         state = gen.chain_with_name_twin(g, state, rng) or state
+    if rng.random() < 0.1:
+        # unions of zero-column relations, one operand being a (static) join identity: the
+        # short-cuts keyed on is_join_identity / is_trivial / max_rows == 0 meet each other
+        prog, cols, eng = state
+        if cols:
+            state = (["proj", prog, [], None], frozenset(), eng)
+        ident = f"LI{len(g.leaves) + 1}"
+        g.leaves[ident] = {"engine": state[2], "cols": [], "rows": [[]], "kind": "identity"}
+        other = rng.choice([["leaf", ident], ["leaf", ident], ["dedup", state[0], None], ["slice", state[0], 0, 1]])
+        state = ((["chain", state[0], other] if rng.random() < 0.5 else ["chain", other, state[0]]), frozenset(), state[2])
+        for _ in range(rng.randint(0, 2)):
+            state = g.unary(state, rng.choice(["dedup", "slice", "sel", "mat"] if engine == "it" else ["dedup", "slice", "sel"])) or state
     case = gen.case_from(g, state)
     case["engine"] = engine
     return case
@@ -135,6 +147,29 @@ def run_case(case):
             if model.canon(got) != model.canon(want.rows):
                 out["violations"].append({"kind": "subprogram_rows_differ", "detail": f"{model.show(sub)} tree {short(subrel)} got {short(model.canon(got), 250)} want {short(model.canon(want.rows), 250)}"})
                 break
+        # the Processor is a consumer of the flags too (it drops chain branches it takes for empty and
+        # never evaluates statically trivial transfers): its result must have the model's rows
+        try:
+            want_root = m.eval(prog)
+        except model.Skip:
+            want_root = None
+        if want_root is not None:
+            from .. import multi
+
+            try:
+                got, processed, _ = multi.evaluate(rel, db)
+            except Exception as exc:  # noqa: BLE001
+                if multi.prune_order_loss(rel, exc):
+                    c["process_order_loss_known_finding_of_C07"] = c.get("process_order_loss_known_finding_of_C07", 0) + 1
+                else:
+                    out["violations"].append({"kind": "processed_not_executable", "detail": f"{label}: {exc_str(exc)}"})
+            else:
+                c["processed_compared"] = c.get("processed_compared", 0) + 1
+                if model.canon(got) != model.canon(want_root.rows):
+                    out["violations"].append({"kind": "processed_rows_differ", "detail": f"{label}: processed {short(processed)} got {short(model.canon(got), 250)} want {short(model.canon(want_root.rows), 250)}"})
+                n = len(got)
+                if n < rel.min_rows or (rel.max_rows is not None and n > rel.max_rows):
+                    out["violations"].append({"kind": "processed_row_count_outside_bounds", "detail": f"{label}: {n} rows, declared [{rel.min_rows}, {rel.max_rows}]"})
         if len(nodes) >= 3:
             out["sig"] = f"{engine}:{gen.op_signature(prog)}:{''.join(sorted(shapes))}"
             out["sample"] = {"engine": engine, "program": label, "nodes": len(nodes), "root_bounds": [rel.min_rows, rel.max_rows], "bound_shapes": sorted(shapes)}
